@@ -7,6 +7,7 @@ import (
 	"sync/atomic"
 	"time"
 
+	"github.com/cnotch/ipchub/av/format/hls"
 	"github.com/cnotch/ipchub/media"
 	"github.com/cnotch/xlog"
 
@@ -32,6 +33,10 @@ type recConsumer struct{ closes int32 }
 func (*recConsumer) Consume(p media.Pack) {}
 func (r *recConsumer) Close() error       { atomic.AddInt32(&r.closes, 1); return nil }
 
+// Tick is the logical time unit of the histories; the real time a history takes is far below it, so
+// "last access at least d ticks ago" is decided by the ticks alone
+const Tick = time.Minute
+
 // Quiet silences the library's logger once per process
 var Quiet sync.Once
 
@@ -54,8 +59,19 @@ func History(c Val) Val {
 		rtp, flv []media.CID
 		recs     []*recConsumer // the consumers of the successful attaches
 		detached int
+		segs     int // segments added to the playlist so far
 	}
 	atts := map[int]*att{}
+	// the playlist of a live stream that has one (the idle task and the HLS service see no other)
+	playlist := func(i int) *hls.Playlist {
+		if i < 0 || i >= len(streams) || media.VerifStatus(streams[i]) != media.StreamOK {
+			return nil
+		}
+		if h := streams[i].Hlsable(); h != nil {
+			return h.(*hls.Playlist)
+		}
+		return nil
+	}
 	outs := []Val{}
 	for _, op := range c.At(1).List() {
 		a := op.At(1)
@@ -140,16 +156,39 @@ func History(c Val) Val {
 		case 10:
 			media.UnregistAll()
 			outs = append(outs, L(I(0)))
-		default:
+		case 11: // the clock advances by a ticks: every playlist's last access is that much older
+			if d := a.Int(); d > 0 {
+				for _, s := range streams {
+					if h := s.Hlsable(); h != nil {
+						hls.VerifShiftAccess(h.(*hls.Playlist), time.Duration(d)*Tick)
+					}
+				}
+			}
+			outs = append(outs, L(I(0)))
+		case 12: // a segment is finished
+			if pl := playlist(i); pl != nil {
+				hls.VerifAddSegment(pl, atts[i].segs, 1.0)
+				atts[i].segs++
+			}
+			outs = append(outs, L(I(0)))
+		case 13: // playlist request
+			ok := false
+			if pl := playlist(i); pl != nil {
+				_, err := pl.M3u8("")
+				ok = err == nil
+			}
+			outs = append(outs, L(I(5), Bo(ok)))
+		case 14: // segment request
+			ok := false
+			if pl := playlist(i); pl != nil {
+				_, _, err := pl.Segment(int(op.At(2).Int()))
+				ok = err == nil
+			}
+			outs = append(outs, L(I(5), Bo(ok)))
+		default: // 9: one run of the idle task with a period of At(2) ticks
 			closed := false
-			if valid {
-				d := time.Duration(0) // HLS not accessed within the period
-				if op.At(2).Bool() {
-					d = time.Hour // accessed recently: the playlist was created moments ago
-				}
-				if media.VerifStatus(streams[i]) == media.StreamOK {
-					closed = media.VerifIdleDecision(streams[i], d, media.StreamNoConsumer)
-				}
+			if valid && media.VerifStatus(streams[i]) == media.StreamOK {
+				closed = media.VerifIdleDecision(streams[i], time.Duration(op.At(2).Int())*Tick, media.StreamNoConsumer)
 			}
 			outs = append(outs, L(I(4), Bo(closed)))
 		}
